@@ -228,5 +228,9 @@ func (c *Collection) readChunk(chunk commit.Chunk, fn func(uint64, commit.Chunk,
 	c.lock.Lock()
 	defer c.slock.RUnlock(uint(chunk))
 	defer c.lock.Unlock()
-	return fn(c.commits[chunk], chunk, chunk.OfBitmap(c.fill))
+	var lastCommit uint64
+	if int(chunk) < len(c.commits) { // a chunk can hold reserved offsets before its first commit
+		lastCommit = c.commits[chunk]
+	}
+	return fn(lastCommit, chunk, chunk.OfBitmap(c.fill))
 }
